@@ -61,11 +61,14 @@ def run_case(case, R):
     Y = images.sum(0) + noise                                          # (F, D, T)
     truth = np.broadcast_to(act[:, None, :], (K, F, T)).astype(float)
     # DHTV aligner inside the domain of C16 ----------------------------------------------------------------------------------
+    metric = ['cos', 'cos', 'euclidean', 'multiply'][case['rs'][-1] % 4]
     if F == 257:
-        al = pa.DHTVPermutationAlignment.from_stft_size(512)
+        al = pa.DHTVPermutationAlignment.from_stft_size(512, similarity_metric=metric)
     else:
         for _ in range(2000):
             width = int(rng.integers(max(6, F // 6), (3 * F) // 4 + 1)); start = int(rng.integers(0, F - width + 1)); shift = int(rng.integers(1, max(1, width // 3) + 1))
+            if case['rs'][-1] % 3 == 0:
+                start = int(rng.integers(max(0, F - width - shift + 1), F - width + 1))      # the first segment is the topmost one
             lo = None; ok = True
             for it, a, b in c16.own_plan(F, start, width, shift, 20, 2):
                 if lo is None:
@@ -75,7 +78,7 @@ def run_case(case, R):
                 lo, hi = min(lo, a), max(hi, b)
             if ok:
                 break
-        al = pa.DHTVPermutationAlignment(stft_size=2 * (F - 1), segment_start=start, segment_width=width, segment_shift=shift, main_iterations=20, sub_iterations=2)
+        al = pa.DHTVPermutationAlignment(stft_size=2 * (F - 1), segment_start=start, segment_width=width, segment_shift=shift, main_iterations=20, sub_iterations=2, similarity_metric=metric)
     field = pa.sample_random_mapping(K, F, random_state=np.random.RandomState(int(rng.integers(2 ** 31))))
     seg = np.arange(al.segment_start, al.segment_start + al.segment_width)
     field[:, rng.permutation(seg)[:int(np.ceil(0.7 * len(seg)))]] = rng.permutation(K)[:, None]
@@ -84,7 +87,7 @@ def run_case(case, R):
     init_kft = pa.apply_mapping((1 - b) * truth + b * np.moveaxis(rng.dirichlet([1.0] * K, size=(F, T)), -1, 0), field)
     init = np.ascontiguousarray(np.transpose(init_kft, (1, 0, 2)))     # (F, K, T)
     Yt = np.ascontiguousarray(np.transpose(Y, (0, 2, 1)))             # (F, T, D)
-    info = dict(model=case['model'], K=K, D=D, F=F, T=T, blur=b)
+    info = dict(model=case['model'], K=K, D=D, F=F, T=T, blur=b, metric=metric)
     try:
         with instr.options(K=K, aff_shape=(F, K, T), weight_constant_axis=(-1,), affiliation_eps=1e-10 if case['model'] == 'cacgmm' else 0.0,
                            eigenvalue_floor=1e-10, covariance_norm='eigenvalue', mask=None):
@@ -119,7 +122,13 @@ def run_case(case, R):
             for k in range(K):
                 tgt = psd[:, k]
                 nse = psd[:, [j for j in range(K) if j != k]].sum(1)
-                W.append(get_bf_vector(name, tgt, nse))
+                bkw = {}
+                if case['rs'][-1] % 2 and 'gev' in name:
+                    if name.startswith('rank1_gev'):
+                        bkw['atf_kwargs'] = {'use_eig': True}
+                    if name.split('+')[-1] in ('gev', 'ban') and 'gev' in name.split('+'):
+                        bkw['use_eig'] = True
+                W.append(get_bf_vector(name, tgt, nse, **bkw))
             W = np.stack(W)                                            # (K, F, D)
             contrib = np.stack([[apply_beamforming_vector(W[kt], images[ks]).reshape(-1) for kt in range(K)] for ks in range(K)])   # (Ks, Kt, F*T)
             ncontrib = np.stack([apply_beamforming_vector(W[kt], noise).reshape(-1) for kt in range(K)])
